@@ -303,7 +303,7 @@ func main() {
 		lib.ReadReplayCase(a.Replay, &c)
 		cases = []Case{c}
 	} else {
-		n := a.Pick(80, 1200)
+		n := a.Pick(200, 1500)
 		for i := 0; i < n; i++ {
 			cases = append(cases, Case{Ops: genHistory(rng.Fork()), Kind: "history"})
 		}
